@@ -5,6 +5,9 @@
     without topology check — chunks split into spans, any sufficient integer width, any handle offset, fixed or
     variable valence, float vertices when exact, skippable chunks, any padding ≤ 255, any file version, any chunk
     order the cursor conditions allow.  Extra hypothesis: the file is shorter than 2^64 bytes.
+  * `decode_encodeWith_adm`: the same for any target that accepts every face / cell span where it is read (`AdmAll`);
+    `decode_encodeWith_ordered`: in particular for every accepting target (`Accepts`: tet / hex mesh types, topology
+    check) when the layout writes faces after all edges and cells after all faces (`topoOrdered`).
   * `encodeWith_prefix_rejected`: no strict prefix of a valid layout's bytes reads Ok, for every configuration.
   Proof-only file (not imported by the judge).  Core only.
 -/
@@ -18,18 +21,31 @@ def Spec.isEof : Spec → Bool
   | .eof => true
   | _ => false
 
+/-- the target mesh accepts the faces / cells of this piece as written, given the edges / faces read so far -/
+def Adm (cur : Cur) (pc : Piece) : Prop :=
+  match pc.spec with
+  | .faces count _ _ _ _ => addFaces cfg (F.edges.take cur.e) (slice F.faces cur.f count) = .ok true
+  | .cells count _ _ _ _ => addCells cfg (F.edges.take cur.e) (F.faces.take cur.f) (slice F.cells cur.c count)
+      = .ok (some (slice F.cells cur.c count))
+  | _ => True
+
+/-- `Adm` for every piece of a list, at the cursor the encoder has there -/
+def AdmAll : Cur → List Piece → Prop
+  | _, [] => True
+  | cur, pc :: rest => Adm cfg F cur pc ∧ AdmAll (curAfter F cur pc) rest
+
 /-- one admissible non-EOF piece of a layout: the reader follows the encoder's cursor -/
-theorem lstep (hk : cfg.kind = .poly) (ht : cfg.topoCheck = false) (hw : WF F)
+theorem lstep (hw : WF F)
     (cur : Cur) (hcur : CurOk F cur) (pc : Piece) (hne : pc.spec.isEof = false)
-    (hok : pieceOk F cur pc = true) :
+    (hok : pieceOk F cur pc = true) (hadm : Adm cfg F cur pc) :
     processChunk cfg (stOf F cur) (chunkOf F cur pc).hdr (chunkOf F cur pc).payload = .ok (stOf F (curAfter F cur pc))
       ∧ CurOk F (curAfter F cur pc) := by
   cases hs : pc.spec with
   | dirp => exact lstep_dirp cfg F hw cur hcur pc hs hok
   | vert count enc => exact lstep_vert cfg F hw cur hcur pc count enc hs hok
   | edges count hEnc off => exact lstep_edges cfg F hw cur hcur pc count hEnc off hs hok
-  | faces count fixed valEnc hEnc off => exact lstep_faces cfg F hk ht hw cur hcur pc count fixed valEnc hEnc off hs hok
-  | cells count fixed valEnc hEnc off => exact lstep_cells cfg F hk ht hw cur hcur pc count fixed valEnc hEnc off hs hok
+  | faces count fixed valEnc hEnc off => exact lstep_faces cfg F hw cur hcur pc count fixed valEnc hEnc off hs hok (by simpa [Adm, hs] using hadm)
+  | cells count fixed valEnc hEnc off => exact lstep_cells cfg F hw cur hcur pc count fixed valEnc hEnc off hs hok (by simpa [Adm, hs] using hadm)
   | prop idx count => exact lstep_prop cfg F hw cur hcur pc idx count hs hok
   | skip ty version flags payload => exact lstep_skip cfg F cur hcur pc ty version flags payload hs hok
   | eof => rw [hs] at hne; cases hne
@@ -146,14 +162,14 @@ theorem finish_layout (hw : WF F) (cur : Cur) (hv : cur.v = F.pos.length) (he : 
     Nat.sub_self, List.replicate_zero, List.append_nil, ne_eq, not_true_eq_false, or_self, R_pure, hstor]
 
 /-- the payload readers follow the permissive encoder through a whole valid piece list -/
-theorem layout_run (hk : cfg.kind = .poly) (ht : cfg.topoCheck = false) (hw : WF F) :
-    ∀ (ps : List Piece) (cur : Cur), CurOk F cur → piecesOk F cur ps = true →
+theorem layout_run (hw : WF F) :
+    ∀ (ps : List Piece) (cur : Cur), CurOk F cur → piecesOk F cur ps = true → AdmAll cfg F cur ps →
     ∃ s', runChunks cfg (stOf F cur) (chunksOf F cur ps) = .ok s' ∧ finish s' = .ok F := by
   intro ps
   induction ps with
   | nil => intro cur _ h; simp [piecesOk] at h
   | cons pc rest ih =>
-    intro cur hcur h
+    intro cur hcur h hadm
     obtain ⟨hok, hcase⟩ := piecesOk_cons F cur pc rest h
     rcases hcase with ⟨rfl, heof, hv, he, hf, hc, hp⟩ | ⟨_, hne, hrest⟩
     · -- the final EOF chunk
@@ -164,14 +180,16 @@ theorem layout_run (hk : cfg.kind = .poly) (ht : cfg.topoCheck = false) (hw : WF
       simp only [chunksOf, runChunks]
       rw [processChunk_v0 _ _ _ _ hcv.1, hcv.2.2]
       simp [dispatch, hcv.2.1, stOf, R_pure]
-    · obtain ⟨hstep, hcur'⟩ := lstep cfg F hk ht hw cur hcur pc hne hok
-      obtain ⟨s', hrun, hfin⟩ := ih _ hcur' hrest
+    · obtain ⟨hstep, hcur'⟩ := lstep cfg F hw cur hcur pc hne hok hadm.1
+      obtain ⟨s', hrun, hfin⟩ := ih _ hcur' hrest hadm.2
       exact ⟨s', by simp only [chunksOf, runChunks, hstep]; exact hrun, hfin⟩
 
-/-- **C06, every permitted encoding**: a valid layout of a well-formed file reads back as that file (polyhedral
-    target without topology check) -/
-theorem decode_encodeWith (hk : cfg.kind = .poly) (ht : cfg.topoCheck = false) (L : Layout)
-    (hwf : WFFile F = true) (hval : ValidLayout L F = true) (hsize : (encodeWith L F).length < 2 ^ 64) :
+/-- **C06, every permitted encoding, any target**: a valid layout of a well-formed file reads back as that file
+    whenever the target mesh type can hold the file's topology type and accepts every face / cell span at the point
+    where it is read (`AdmAll`) -/
+theorem decode_encodeWith_adm (L : Layout) (hwf : WFFile F = true) (hval : ValidLayout L F = true)
+    (hsize : (encodeWith L F).length < 2 ^ 64) (htet : cfg.kind = .tet → F.topo = topoTypeTetrahedral)
+    (hhex : cfg.kind = .hex → F.topo = topoTypeHexahedral) (hadm : AdmAll cfg F {} L.pieces) :
     decode cfg (encodeWith L F) = .ok F := by
   have hw := WF.of F hwf
   simp only [ValidLayout, Bool.and_eq_true, decide_eq_true_eq] at hval
@@ -179,11 +197,69 @@ theorem decode_encodeWith (hk : cfg.kind = .poly) (ht : cfg.topoCheck = false) (
     simp only [encodeWith, fileHeader, encodePieces_eq]
   have hfit := chunksOf_fits F L.pieces {} hval.2 (by
     rw [henc, List.length_append] at hsize; omega)
-  obtain ⟨s', hrun, hfin⟩ := layout_run cfg F hk ht hw L.pieces {} (curOk_init F) hval.2
+  obtain ⟨s', hrun, hfin⟩ := layout_run cfg F hw L.pieces {} (curOk_init F) hval.2 hadm
   unfold decode
-  rw [henc, decodeStream_header_gen cfg F L.fileVersion hw (accepts_poly cfg F hk ht), loop_chunks cfg _ hfit,
-    stOf_init, hrun]
+  rw [henc, decodeStream_header_gen cfg F L.fileVersion hw htet hhex, loop_chunks cfg _ hfit, stOf_init, hrun]
   exact hfin
+
+theorem admAll_poly (hk : cfg.kind = .poly) (ht : cfg.topoCheck = false) : ∀ (ps : List Piece) (cur : Cur),
+    AdmAll cfg F cur ps := by
+  intro ps
+  induction ps with
+  | nil => intro _; trivial
+  | cons pc rest ih =>
+    intro cur
+    refine ⟨?_, ih _⟩
+    unfold Adm
+    cases pc.spec <;> simp only
+    · exact addFaces_poly cfg hk ht _ _
+    · exact addCells_poly cfg hk ht _ _ _
+
+/-- **C06, every permitted encoding**: a valid layout of a well-formed file reads back as that file (polyhedral
+    target without topology check) -/
+theorem decode_encodeWith (hk : cfg.kind = .poly) (ht : cfg.topoCheck = false) (L : Layout)
+    (hwf : WFFile F = true) (hval : ValidLayout L F = true) (hsize : (encodeWith L F).length < 2 ^ 64) :
+    decode cfg (encodeWith L F) = .ok F :=
+  decode_encodeWith_adm cfg F L hwf hval hsize (by simp [hk]) (by simp [hk]) (admAll_poly cfg F hk ht _ _)
+
+/-- topology in dependency order: every face span is written after all edges, every cell span after all edges and
+    faces (spans of one kind may still be split, and vertices, properties and skippable chunks go anywhere) -/
+def topoOrdered : Cur → List Piece → Bool
+  | _, [] => true
+  | cur, pc :: rest =>
+    (match pc.spec with
+     | .faces _ _ _ _ _ => cur.e == F.edges.length
+     | .cells _ _ _ _ _ => cur.e == F.edges.length && cur.f == F.faces.length
+     | _ => true) && topoOrdered (curAfter F cur pc) rest
+
+theorem mem_slice' {α} {l : List α} {a b : Nat} {x : α} (h : x ∈ slice l a b) : x ∈ l :=
+  List.mem_of_mem_drop (List.mem_of_mem_take h)
+
+theorem admAll_ordered (hacc : Accepts cfg F) : ∀ (ps : List Piece) (cur : Cur), topoOrdered F cur ps = true →
+    AdmAll cfg F cur ps := by
+  intro ps
+  induction ps with
+  | nil => intro _ _; trivial
+  | cons pc rest ih =>
+    intro cur h
+    simp only [topoOrdered, Bool.and_eq_true] at h
+    refine ⟨?_, ih _ h.2⟩
+    unfold Adm
+    cases hs : pc.spec <;> simp only
+    · have he : cur.e = F.edges.length := by simpa [hs] using h.1
+      rw [he, List.take_length]
+      exact addFaces_all cfg F.edges _ (fun f hf => hacc.faces f (mem_slice' hf))
+    · have he : cur.e = F.edges.length ∧ cur.f = F.faces.length := by simpa [hs] using h.1
+      rw [he.1, he.2, List.take_length, List.take_length]
+      exact addCells_all cfg F.edges F.faces _ (fun c hc => hacc.cells c (mem_slice' hc))
+
+/-- **C06, permitted encodings into any accepting target** (tetrahedral / hexahedral mesh types, topology check
+    on): a valid layout that writes its topology in dependency order reads back as the file for every reading
+    configuration that accepts the file's faces and cells as written -/
+theorem decode_encodeWith_ordered (L : Layout) (hwf : WFFile F = true) (hval : ValidLayout L F = true)
+    (hsize : (encodeWith L F).length < 2 ^ 64) (hacc : Accepts cfg F) (hord : topoOrdered F {} L.pieces = true) :
+    decode cfg (encodeWith L F) = .ok F :=
+  decode_encodeWith_adm cfg F L hwf hval hsize hacc.tet hacc.hex (admAll_ordered cfg F hacc _ _ hord)
 
 /-! ### truncation of any permitted encoding (C18) -/
 
